@@ -236,6 +236,9 @@ def analyse(src):
         raise Shape("_filter_tree has unexpected tests: %r" % (tests,))
     if "node.parent.remove_child(node)" not in [ast.unparse(n) for n in ast.walk(ft) if isinstance(n, ast.Call)]:
         raise Shape("_filter_tree does not remove the marked node")
+    loops = [ast.unparse(n.iter) for n in ast.walk(ft) if isinstance(n, ast.For)]
+    if loops != ["node.children[:]"]:       # C06/ModelNestingHeap.v hfilter: recursion over a SNAPSHOT of the children
+        raise Shape("_filter_tree iterates over %r, not over a snapshot of node.children" % (loops,))
 
     # ---- _fix_nesting
     fx = _method(tc, "_fix_nesting")
